@@ -85,9 +85,13 @@ CLAIMED = {
         text=('On the Lean state machine of one validator instance (Model/Api.lean): C06_verdict (validate returns True iff no error is '
               'recorded), C06_validated, C06_normalized (None conventions), C06_normalizes_first and C06_decompose_partial (validate = '
               'normalization errors followed by validation of the normalized document on the same instance; same processed document), '
-              'C06_errors_empty (rendering empty iff no errors, via C13_empty). The clause "validate(d) = normalized(d) errors + '
-              'validate(normalized(d), normalize=False) on a fresh instance" for readonly-free schemas is partial: its validation half is '
-              'decided by the api port and the oracle on real validators (update in {False, True}).'),
+              'C06_errors_empty (rendering empty iff no errors, via C13_empty). C06_decompose / C06_compose: for tables in which the rule '
+              '`readonly` is never queued, validate(d) = normalization errors of normalized(d) ++ errors of a separate '
+              'validate(normalized(d), normalize=False), same processed document, for every schema, options, document and update '
+              '(Proofs/Marker.lean: the _is_normalized marker and the errors recorded so far are read by the readonly handler only, at '
+              'every depth). C06_queue_without_readonly + C06_readonly_not_mandatory: a rule set that does not name readonly has the same '
+              'queue under the extracted tables and under the tables without readonly. The composition of this bridge over all nested rule '
+              'sets of a readonly-free schema is decided by the api port and the oracle on real validators (update in {False, True}).'),
         note=COMMON_NOTE + 'Acceptance of per-call schemas is an oracle of the api port (computed with the real code) until the C04 model is linked.',
         design='§6 C06'),
     'C07': dict(
